@@ -8,7 +8,7 @@
    - every parse of that token list under the dialect's levels is that skeleton, and the Kleene value
      of the tree so read is sem_cond c: the AND of the members of an all group, the OR of the members
      of an any group, negated where not() was called (written_condition_reads_as_specified). *)
-Require Import SQV.Spec.Pratt SQV.Proofs.PrattProofs.
+Require Import SQV.Spec.PrattT SQV.Proofs.PrattTProofs.
 Require Import SQV.Model.Str SQV.Model.Escape SQV.Model.Value SQV.Model.Expr SQV.Model.Cond SQV.Model.Stmt
   SQV.Model.Writer SQV.Model.RenderExpr SQV.Model.RenderStmt SQV.Model.ExprTablesInst
   SQV.Spec.Prec SQV.Spec.ParenRows SQV.Spec.Logic3 SQV.Proofs.CondProofs SQV.Proofs.PrattLinkProofs.
@@ -19,7 +19,7 @@ Section W.
 Variable Q : Type.
 Variable b : backend.
 
-Notation pexpr := (Pratt.expr (expr Q) binop).
+Notation pexpr := (PrattT.expr (expr Q) sop).
 
 Fixpoint cond_frag (c : cond Q) : bool :=
   match c with
@@ -28,17 +28,33 @@ Fixpoint cond_frag (c : cond Q) : bool :=
 
 Fixpoint unskel (p : pexpr) : expr Q :=
   match p with
-  | Pratt.EA _ _ a => a
-  | Pratt.EN _ _ x => ENot (unskel x)
-  | Pratt.EB _ _ l o r => EBinary (unskel l) o (unskel r)
+  | PrattT.EA _ _ a => a
+  | PrattT.EN _ _ x => ENot (unskel x)
+  | PrattT.EB _ _ l o r => EBinary (unskel l) (match o with SBin o => o | SBetweenAnd => BAnd end) (unskel r)
   end.
 
-Lemma unskel_skel e : unskel (skel Q e) = e.
+Lemma unskel_skel_aux e :
+  unskel (skel Q e) = e /\
+  match e with EBinary lo _ hi => unskel (skel Q lo) = lo /\ unskel (skel Q hi) = hi | _ => True end.
 Proof.
-  induction e as [c|es|x IHx|f args|l IHl op r IHr|sop q|v|vs|cs|cs es|k|ty x IHx|whens els|v]; try reflexivity.
-  - cbn [skel unskel]. now rewrite IHx.
-  - cbn [skel unskel]. now rewrite IHl, IHr.
+  induction e as [c|es|x IHx|f args|l IHl op r IHr|sop0 q|v|vs|cs|cs es|k|ty x IHx|whens els|v];
+    (split; [|try exact I]); try reflexivity.
+  - cbn [skel unskel]. now rewrite (proj1 IHx).
+  - destruct IHl as [El _]. destruct IHr as [Er Eops].
+    assert (Eb : skel Q (EBinary l op r) = PrattT.EB _ _ (skel Q l) (SBin op) (skel Q r) \/
+                 exists lo hi, r = EBinary lo BAnd hi /\
+                   skel Q (EBinary l op r) = PrattT.EB _ _ (skel Q l) (SBin op)
+                                               (PrattT.EB _ _ (skel Q lo) SBetweenAnd (skel Q hi))).
+    { cbn [skel]. destruct r as [| | | |lo rop hi| | | | | | | | |]; try (left; reflexivity).
+      destruct rop; try (left; reflexivity). destruct (is_between op); [right; eauto|left; reflexivity]. }
+    destruct Eb as [-> | (lo & hi & -> & ->)]; cbn [unskel].
+    + now rewrite El, Er.
+    + destruct Eops as [Elo Ehi]. now rewrite El, Elo, Ehi.
+  - split; [apply IHl|apply IHr].
 Qed.
+
+Lemma unskel_skel e : unskel (skel Q e) = e.
+Proof. exact (proj1 (unskel_skel_aux e)). Qed.
 
 Lemma frag_op_and_or (is_any : bool) : frag_op b (if is_any then BOr else BAnd) = true.
 Proof. destruct is_any, b; reflexivity. Qed.
@@ -80,21 +96,21 @@ Variable rho : expr Q -> tv.
 
 Theorem written_condition_reads_as_specified (c : cond Q) rest p rest' :
   cond_frag c = true ->
-  Pratt.stops (expr Q) binop (prec b) 0 rest ->
-  Pratt.P (expr Q) binop (prec b) (rmin b) (notp b) 0
+  PrattT.stops (expr Q) sop (prec b) 0 rest ->
+  PrattT.P (expr Q) sop (prec b) (rmin b) (notp b) (tern) 0
     (abstract_rendering Q T (to_simple_expr c) ++ rest) p rest' ->
   p = skel Q (to_simple_expr c) /\ rest' = rest /\ eval3 rho (unskel p) = sem_cond rho c.
 Proof.
   intros Hc Hst Hp.
   pose proof (fragment_parses_back Q b T rows_safe (to_simple_expr c) rest (cond_frag_sound c Hc) Hst) as Hq.
-  destruct (parse_unique _ _ _ _ _ _ _ _ _ _ _ Hp Hq) as [-> ->].
+  destruct (parse_unique _ _ _ _ _ _ _ _ _ _ _ _ Hp Hq) as [-> ->].
   repeat split. rewrite unskel_skel. apply to_simple_expr_sound.
 Qed.
 
 (* there is always such a parse: the statement above is not vacuous *)
 Theorem written_condition_parses (c : cond Q) rest :
-  cond_frag c = true -> Pratt.stops (expr Q) binop (prec b) 0 rest ->
-  Pratt.P (expr Q) binop (prec b) (rmin b) (notp b) 0
+  cond_frag c = true -> PrattT.stops (expr Q) sop (prec b) 0 rest ->
+  PrattT.P (expr Q) sop (prec b) (rmin b) (notp b) (tern) 0
     (abstract_rendering Q T (to_simple_expr c) ++ rest) (skel Q (to_simple_expr c)) rest.
 Proof. intros Hc Hst. apply fragment_parses_back; [exact rows_safe|now apply cond_frag_sound|exact Hst]. Qed.
 End W.
